@@ -17,7 +17,10 @@ LEVEL = "model_checking"
 RULE = (
     "breadth-first enumeration of operator expressions (depth 1: all ordered pairs of the P/PC/TT/"
     "numeric-variant alphabets x {| & - ^ + *} and ~/unary -; depth 2: (X o Y) o' Z and X o (Y o' Z) over "
-    "ordered triples of 7 polygons x 16 operator pairs; singleton tables; degenerate tier), each executed on "
+    "ordered triples of 7 polygons x 16 operator pairs; depth 3 on 4 leaves (thorough); rings nested through islands four levels deep; "
+    "warm operands = the same polygons as objects with a past (built elsewhere, queried, moved back); curved tier: pairs of the float/curved Q "
+    "alphabet incl. two-segment lenses, S-shaped and coincident-handle cubics, curved composites and depth-2 curved programs, judged on a 31x31 "
+    "grid with clearance plus mid-points between crossing points; singleton tables; degenerate tier), each executed on "
     "the real code from fresh leaves; operands outside exact general position are counted as excluded "
     "unless listed in the degenerate tier. A case is non-trivial when the operands' boundaries cross "
     "(recombination path, not a containment short-cut); distinct = distinct result representation. "
